@@ -674,6 +674,34 @@ def _lemma_poly_fit_dispatch(N):
 lemma("math.poly2d_fit_dispatch", ["C20"], inputs=dict(N=Int(ge=0)), body=_lemma_poly_fit_dispatch, unstub=[f"{MATH}:Poly2d.fit"], note="which model is fitted for which number of points (symbolic N)")
 
 
+# ---- decompose_rws: ASSUMED in its documented form (numpy.linalg is outside reach); validated by the bounded check below ----------
+
+
+def _fresh_rws(name, A):
+    """the documented shape of the result:  R = [c -s; s c] (carrying the translation),  W = [1 w; 0 1],  S = diag(sx, sy)"""
+    Af = repo("affine").Affine
+    c, s_, w, sx, sy = (Real().make(f"{name}.{k}") for k in ("cos", "sin", "w", "sx", "sy"))
+    return (Af(c, -s_, A.c, s_, c, A.f), Af(1, w, 0, 0, 1, 0), Af(sx, 0, 0, 0, sy, 0))
+
+
+contract(
+    f"{MATH}:decompose_rws",
+    ["C20", "C02"],
+    inputs=dict(A=AFFINE()),
+    requires=[lambda A: A.a * A.e - A.b * A.d != 0],
+    ensures=[
+        ("R is a proper rotation", lambda result: result[0].a * result[0].a + result[0].d * result[0].d == 1),
+        ("S is diagonal with a positive X scale (the sign of the determinant goes to the Y scale)", lambda result: result[2].a > 0),
+        (
+            "R W S multiplies back to the linear part of the input",
+            lambda A, result: (lambda c, s_, w, sx, sy: And(A.a == c * sx, A.d == s_ * sx, A.b == (c * w - s_) * sy, A.e == (s_ * w + c) * sy))(result[0].a, result[0].d, result[1].b, result[2].a, result[2].e),
+        ),
+    ],
+    returns=lambda A: Custom(lambda name: _fresh_rws(name, A), "(R, W, S) in the documented form"),
+    verify=False,
+    trusted_reason="numpy.linalg.cholesky / inv / det: ASSUMED to deliver the documented decomposition; the BOUNDED native check of Poly2d.fit's contract validates exactly these clauses on sampled affines",
+)
+
 # ---- BOUNDED: the numerical linear algebra (numpy lstsq / cholesky): decompose_rws, affine_from_pts, Poly2d fits ----------------
 
 
@@ -754,6 +782,14 @@ def _linalg_oracle(args, run=None):
             fails.append("post:S is diagonal")
         if not (R.c == A.c and R.f == A.f):
             fails.append("post:translation carried by R")
+        if not (S.a > 0 and (S.e > 0) == (np.linalg.det(lin(A)) > 0)):
+            fails.append("post:the X scale is positive, the Y scale carries the sign of the determinant")
+        # resolution_from_affine reads the pixel size off S (proved against the assumed decomposition): same on the real numbers
+        res = M.resolution_from_affine(A)
+        if not M.is_affine_st(A) and not (np.isclose(res.x, S.a, rtol=1e-12, atol=0) and np.isclose(res.y, S.e, rtol=1e-12, atol=0)):
+            fails.append("post:resolution of a rotated / sheared transform is the diagonal of its scale factor")
+        if not (np.isclose(res.x * res.x, A.a * A.a + A.d * A.d, rtol=1e-9) and np.isclose(res.x * res.y, A.a * A.e - A.b * A.d, rtol=1e-9)) and not M.is_affine_st(A):
+            fails.append("post:resolution: rx^2 == a^2 + d^2 and rx*ry == det")
         return fails
     if kind == "affine_from_pts":
         A, pts = args["A"], args["pts"]
